@@ -1,7 +1,9 @@
 //go:build c19finding
 
 // Replay of the candidate finding reported by C19 (not part of the check):
-//   go test -tags "verif c19finding" ./c19 -run TestCorruptBlockPopHangs -timeout 10s
+//
+//	go test -tags "verif c19finding" ./c19 -run TestCorruptBlockPopHangs -timeout 10s
+//
 // A block whose data section is the single continuation byte 0x80 passes
 // parseIndexBlock; a writer opened on it (descriptor: max 5, entries 2) never
 // returns from pop(5): scanSection does not check binary.Uvarint's n <= 0.
